@@ -8,7 +8,7 @@ from __future__ import annotations
 import re
 from ast import literal_eval, iter_child_nodes, walk
 from io import BytesIO
-from tokenize import tokenize as tokenize_tokenize, STRING
+from tokenize import tokenize as tokenize_tokenize, COMMENT, STRING
 from types import EllipsisType, TracebackType
 from typing import Iterable, Literal, NamedTuple
 
@@ -510,7 +510,9 @@ def _params_offset(
     return _ParamsOffset(end_ln, col_offset, dln, dcol_offset)
 
 
-def _multiline_str_continuation_lns(lines: list[str], ln: int, col: int, end_ln: int, end_col: int) -> list[int]:
+def _multiline_str_continuation_lns(
+    lines: list[str], ln: int, col: int, end_ln: int, end_col: int, comment_lns: set[int] | None = None
+) -> list[int]:
     """Return the line numbers of a potentially multiline string `Constant` or f or t-string continuation lines (lines
     which should not be indented because their start is part of the string value because they follow a newline inside
     triple quotes or single quoted backslash continued lines). The location passed MUST be from the `Constant`,
@@ -533,6 +535,10 @@ def _multiline_str_continuation_lns(lines: list[str], ln: int, col: int, end_ln:
     for token in tokens:
         if (token_type := token.type) == STRING:
             lns.extend(range(token.start[0] + ln, token.end[0] + ln))
+
+        elif token_type == COMMENT:
+            if comment_lns is not None:  # lines which end in a comment (between the parts of an implicit concatenation), a backslash at the end of one of these is not a line continuation
+                comment_lns.add(token.start[0] + ln - 1)
 
         elif token_type in FTSTRING_START_TOKENS:
             start_lineno = token.start[0]
@@ -1138,18 +1144,20 @@ def _is_enclosed_or_line(
             check_pars = False
 
         if (is_const := (ast_cls is Constant)) or ast_cls in (JoinedStr, TemplateStr):
+            comment_lns = set()
+
             if is_const:
                 assert isinstance(ast.value, (str, bytes))  # other types will have end_ln == ln and will have returned above
 
-                lns = _multiline_str_continuation_lns(lines, ln, col, end_ln, end_col)
+                lns = _multiline_str_continuation_lns(lines, ln, col, end_ln, end_col, comment_lns)
 
             else:
-                lns = _multiline_ftstr_continuation_lns(lines, ln, col, end_ln, end_col)
+                lns = _multiline_ftstr_continuation_lns(lines, ln, col, end_ln, end_col, comment_lns)
 
             lns = set(lns)
 
             for i in range(ln, end_ln):  # set any line that follows a line continuation `\` as a continuation (not normally set by _multiline_str_* functions)
-                if lines[i].endswith('\\'):  # this is fine whether it is part of string or not
+                if lines[i].endswith('\\') and i not in comment_lns:  # this is fine whether it is part of string or not, but not if it ends a comment
                     lns.add(i + 1)
 
             if (ret := len(lns) == end_ln - ln) or out_lns is None:
